@@ -7,13 +7,19 @@
 //!       results are compared by value. Events are judged by Trace_FontCache.
 //!   c03_purity record <seed> <histories> <len> <trace.ndjson>
 //!       random long histories over a richer concrete universe, every call compared with fresh.
+//!       Fonts come in three families, named by the CASE: `intact` (repository fonts and synthesized
+//!       ones), `dmg` (the same fonts served through a table provider that truncates one or several
+//!       lazily loaded tables or fails to deliver them, so that their load fails while Font::new
+//!       succeeds) and `collide` (a font whose GSUB and/or GPOS is built from the layout the CASE
+//!       carries: > 64 KiB, Coverage/ClassDef tables at positions congruent mod 2^16 and 2^8).
 //!   c03_purity repeat <seed> <out.ndjson>
 //!       pure operations (subset, instance, whole_font, WOFF/WOFF2 decoding) run twice in this
 //!       process; digests recorded per run (the driver also runs this in a second process).
 use allsorts::binary::read::ReadScope;
 use allsorts::bitmap::BitDepth;
+use allsorts::error::ParseError;
 use allsorts::font::{Font, GlyphTableFlags, MatchingPresentation};
-use allsorts::font_data::FontData;
+use allsorts::font_data::{DynamicFontTableProvider, FontData};
 use allsorts::gsub::{FeatureMask, Features};
 use allsorts::tables::variable_fonts::fvar::Tuple;
 use allsorts::tables::{F2Dot14, FontTableProvider};
@@ -22,6 +28,9 @@ use rand::rngs::StdRng;
 use rand::seq::SliceRandom;
 use rand::{Rng, SeedableRng};
 use serde_json::{json, Value};
+use std::borrow::Cow;
+use std::collections::BTreeMap;
+use std::rc::Rc;
 use vh::fontgen::*;
 use vh::sup::{guarded, Outcome};
 use vh::util::{read_ndjson, repo_root, NdWriter};
@@ -83,28 +92,531 @@ fn synth_fv_font() -> Vec<u8> {
     f.build()
 }
 
+/// A small font that carries every lazily loaded table kind (GSUB with FeatureVariations, GPOS, GDEF,
+/// kern, morx, vhea, vmtx, sbix); `with_gsub = false` leaves GSUB out so that shaping goes through morx.
+fn synth_all_font(with_gsub: bool) -> Vec<u8> {
+    let mut f = TtFont::new(vec![GlyphSpec::Empty, triangle(0), triangle(10), triangle(20), triangle(30), triangle(40)]);
+    f.cmap = vec![(0x41, 1), (0x42, 2), (0x43, 3), (0x25CC, 4), (0x1F600, 5)];
+    if with_gsub {
+        f.extra_tables.push(("GSUB".into(), gsub_with_feature_variations()));
+    }
+    f.extra_tables.push(("fvar".into(), fvar_one_axis()));
+    // GPOS: feature kern -> SinglePos (glyph 1 advances 100 further)
+    let gpos_spec = vec![LSpec {
+        tbl: "GPOS".into(),
+        idx: 0,
+        feat: "kern".into(),
+        typ: "single".into(),
+        ext: false,
+        sub: 256,
+        objs: vec![Obj { kind: "cov".into(), pos: 264, content: "A".into() }],
+        nested: vec![],
+    }];
+    f.extra_tables.push(("GPOS".into(), build_layout("GPOS", &gpos_spec)));
+    let mut gdef = W::new();
+    gdef.u16(1).u16(0).u16(0).u16(0).u16(0).u16(0);
+    f.extra_tables.push(("GDEF".into(), gdef.done()));
+    let mut kern = W::new();
+    kern.u16(0).u16(1); // version 0, one sub-table
+    kern.u16(0).u16(20).u16(1); // sub-table version, length, coverage: horizontal, format 0
+    kern.u16(1).u16(6).u16(0).u16(0); // nPairs, searchRange, entrySelector, rangeShift
+    kern.u16(1).u16(2).i16(-30);
+    f.extra_tables.push(("kern".into(), kern.done()));
+    let mut morx = W::new();
+    morx.u16(2).u16(0).u32(0); // version 2, no chains
+    f.extra_tables.push(("morx".into(), morx.done()));
+    f.extra_tables.push(("vhea".into(), hhea(6, 800, -200, 1000)));
+    let vm: Vec<(u16, i16)> = (0..6).map(|i| (900 + 7 * i as u16, 3 * i as i16)).collect();
+    f.extra_tables.push(("vmtx".into(), hmtx(&vm, &[])));
+    let mut sbix = W::new();
+    sbix.u16(1).u16(1).u32(0); // version, flags, no strikes
+    f.extra_tables.push(("sbix".into(), sbix.done()));
+    f.build()
+}
+
+// ---- damaged tables: a wrapping table provider --------------------------------------------------
+
+#[derive(Clone, Debug, PartialEq)]
+enum Mode {
+    /// the table is cut off after n bytes
+    Trunc(usize),
+    /// the table is cut off in the middle
+    Half,
+    /// the provider fails to deliver the table (as a container that cannot decompress it would)
+    Fail,
+}
+
+#[derive(Clone, Debug, Default)]
+struct Damage {
+    items: Vec<(u32, Mode)>,
+}
+
+struct Wrap<'a> {
+    inner: DynamicFontTableProvider<'a>,
+    dmg: &'a Damage,
+}
+
+impl<'a> FontTableProvider for Wrap<'a> {
+    fn table_data(&self, tag: u32) -> Result<Option<Cow<'_, [u8]>>, ParseError> {
+        match self.dmg.items.iter().find(|(t, _)| *t == tag) {
+            None => self.inner.table_data(tag),
+            Some((_, Mode::Fail)) => Err(ParseError::BadEof),
+            Some((_, Mode::Trunc(n))) => Ok(self.inner.table_data(tag)?.map(|d| Cow::Owned(d[..(*n).min(d.len())].to_vec()))),
+            Some((_, Mode::Half)) => Ok(self.inner.table_data(tag)?.map(|d| Cow::Owned(d[..d.len() / 2].to_vec()))),
+        }
+    }
+
+    fn has_table(&self, tag: u32) -> bool {
+        self.inner.has_table(tag)
+    }
+
+    fn table_tags(&self) -> Option<Vec<u32>> {
+        self.inner.table_tags()
+    }
+}
+
+const KINDS: [&str; 8] = ["gsub", "gpos", "gdef", "morx", "kern", "vhea", "vmtx", "images"];
+
+/// The tables of `data` (read with the harness's own sfnt reader) that make up a lazily loaded kind.
+fn kind_tags(kind: &str, data: &[u8]) -> Vec<u32> {
+    let cands: &[&str] = match kind {
+        "gsub" => &["GSUB"],
+        "gpos" => &["GPOS"],
+        "gdef" => &["GDEF"],
+        "morx" => &["morx"],
+        "kern" => &["kern"],
+        "vhea" => &["vhea"],
+        "vmtx" => &["vmtx"],
+        _ => &["SVG ", "sbix", "CBLC", "CBDT"],
+    };
+    let dir = match read_sfnt_dir(data, 0) {
+        Some(d) => d,
+        None => return vec![],
+    };
+    cands.iter().filter(|t| table_bytes(data, &dir, t).is_some()).map(|t| tag_u32(t)).collect()
+}
+
+fn mode_name(m: &Mode) -> String {
+    match m {
+        Mode::Trunc(n) => format!("trunc{}", n),
+        Mode::Half => "half".into(),
+        Mode::Fail => "fail".into(),
+    }
+}
+
+/// Does the load of every damaged kind fail on a fresh font, as the model assumes?  (vmtx has no
+/// accessor and its load only fails when the provider fails; that holds by construction.)
+fn damage_takes_effect(cfg: &FontCfg, kinds: &[String]) -> bool {
+    let r = guarded(|| {
+        with_font(&cfg.data, &cfg.damage, |font| {
+            kinds.iter().all(|k| match k.as_str() {
+                "gsub" => font.gsub_cache().is_err(),
+                "gpos" => font.gpos_cache().is_err(),
+                "gdef" => font.gdef_table().is_err(),
+                "morx" => font.morx_table().is_err(),
+                "kern" => font.kern_table().is_err(),
+                "vhea" => font.vhea_table().is_err(),
+                "vmtx" => cfg.damage.items.iter().all(|(_, m)| *m == Mode::Fail),
+                _ => font.lookup_glyph_image(1, 100, BitDepth::ThirtyTwo).is_err(),
+            })
+        })
+    });
+    matches!(r, Outcome::Returned(Some(true)))
+}
+
+/// Concrete fonts for the abstract font "tables `kinds` are damaged": every base font that has all of
+/// them, under every damage mode; variants whose loads do not fail are dropped (and counted).
+fn damaged_variants(bases: &[FontCfg], kinds: &[String], modes: &[Mode], dropped: &mut usize) -> Vec<FontCfg> {
+    let mut v = Vec::new();
+    for b in bases {
+        let tags: Vec<Vec<u32>> = kinds.iter().map(|k| kind_tags(k, &b.data)).collect();
+        if tags.iter().any(|t| t.is_empty()) {
+            continue;
+        }
+        for m in modes {
+            let mut c = b.clone();
+            c.name = format!("{}~{}:{}", b.name, kinds.join("+"), mode_name(m));
+            c.fam = "dmg";
+            c.damage = Damage { items: tags.iter().flatten().map(|t| (*t, m.clone())).collect() };
+            c.desc = json!({"fam": "dmg", "damaged": kinds, "lookups": []});
+            if *m == Mode::Half || damage_takes_effect(&c, kinds) {
+                v.push(c);
+            } else {
+                *dropped += 1;
+            }
+        }
+    }
+    v
+}
+
+// ---- colliding cache keys: layout tables built from the layout the model dictates ---------------
+
+#[derive(Clone, Debug)]
+struct Obj {
+    kind: String,
+    pos: usize,
+    content: String,
+}
+
+#[derive(Clone, Debug)]
+struct LSpec {
+    tbl: String,
+    idx: usize,
+    feat: String,
+    typ: String,
+    ext: bool,
+    sub: usize,
+    objs: Vec<Obj>,
+    nested: Vec<usize>,
+}
+
+fn lspecs(lookups: &Value) -> Vec<LSpec> {
+    lookups
+        .as_array()
+        .map(|a| {
+            a.iter()
+                .map(|l| LSpec {
+                    tbl: l["tbl"].as_str().unwrap().into(),
+                    idx: l["idx"].as_u64().unwrap() as usize,
+                    feat: l["feat"].as_str().unwrap().into(),
+                    typ: l["typ"].as_str().unwrap().into(),
+                    ext: l["ext"].as_bool().unwrap(),
+                    sub: l["sub"].as_u64().unwrap() as usize,
+                    objs: l["objs"].as_array().unwrap().iter().map(|o| Obj {
+                        kind: o["kind"].as_str().unwrap().into(),
+                        pos: o["pos"].as_u64().unwrap() as usize,
+                        content: o["content"].as_str().unwrap().into(),
+                    }).collect(),
+                    nested: l["nested"].as_array().map(|n| n.iter().map(|x| x.as_u64().unwrap() as usize).collect()).unwrap_or_default(),
+                })
+                .collect()
+        })
+        .unwrap_or_default()
+}
+
+/// glyph of a letter in the collide fonts
+fn gid(c: char) -> u16 {
+    (c as u32 - 'A' as u32 + 1) as u16
+}
+const COLLIDE_TEXT: &str = "ABCIXEXFXG";
+const COLLIDE_DELTA: u16 = 32;
+
+struct Img {
+    buf: Vec<u8>,
+    used: Vec<bool>,
+}
+
+impl Img {
+    fn put(&mut self, at: usize, bytes: &[u8]) {
+        if self.buf.len() < at + bytes.len() {
+            self.buf.resize(at + bytes.len(), 0);
+            self.used.resize(at + bytes.len(), false);
+        }
+        for (k, b) in bytes.iter().enumerate() {
+            assert!(!self.used[at + k], "layout overlaps at byte {}", at + k);
+            self.used[at + k] = true;
+            self.buf[at + k] = *b;
+        }
+    }
+}
+
+fn coverage_bytes(content: &str) -> Vec<u8> {
+    let mut g: Vec<u16> = content.chars().map(gid).collect();
+    g.sort();
+    let mut w = W::new();
+    w.u16(1).u16(g.len() as u16);
+    for x in g {
+        w.u16(x);
+    }
+    w.done()
+}
+
+fn classdef_bytes(content: &str) -> Vec<u8> {
+    let mut g: Vec<u16> = content.chars().map(gid).collect();
+    g.sort();
+    let mut w = W::new();
+    w.u16(2).u16(g.len() as u16);
+    for x in g {
+        w.u16(x).u16(x).u16(1);
+    }
+    w.done()
+}
+
+/// A GSUB or GPOS table (version 1.0; scripts DFLT and latn, default language system only) holding the
+/// lookups of `specs` that belong to `tbl`, every sub-table and every Coverage/ClassDef object at the
+/// absolute position the layout names.  `single`: SingleSubst format 1 (glyph + 32) / SinglePos format 1
+/// (advance + 100).  `class`: ContextSubst format 2 (glyphs of class 1 get lookup nested[0]) / PairPos
+/// format 2 (a covered glyph followed by a glyph of class 1 advances 100 further).
+fn build_layout(tbl: &str, specs: &[LSpec]) -> Vec<u8> {
+    let specs: Vec<&LSpec> = specs.iter().filter(|s| s.tbl == tbl).collect();
+    let gsub = tbl == "GSUB";
+    let mut feats: Vec<String> = specs.iter().map(|s| s.feat.clone()).filter(|f| f != "none").collect();
+    feats.sort();
+    feats.dedup();
+    let mut img = Img { buf: vec![], used: vec![] };
+    // script list
+    let script_list = 10usize;
+    let mut w = W::new();
+    w.u16(2).tag("DFLT").u16(14).tag("latn").u16(14);
+    w.u16(4).u16(0); // Script: default LangSys at 4
+    w.u16(0).u16(0xFFFF).u16(feats.len() as u16);
+    for i in 0..feats.len() {
+        w.u16(i as u16);
+    }
+    let sl = w.done();
+    img.put(script_list, &sl);
+    // feature list
+    let feature_list = script_list + sl.len();
+    let mut w = W::new();
+    w.u16(feats.len() as u16);
+    let mut off = 2 + 6 * feats.len();
+    let mut tables = Vec::new();
+    for f in &feats {
+        let idxs: Vec<usize> = specs.iter().filter(|s| &s.feat == f).map(|s| s.idx).collect();
+        w.tag(f).u16(off as u16);
+        let mut t = W::new();
+        t.u16(0).u16(idxs.len() as u16);
+        for i in &idxs {
+            t.u16(*i as u16);
+        }
+        off += t.len();
+        tables.push(t.done());
+    }
+    for t in tables {
+        w.bytes(&t);
+    }
+    let fl = w.done();
+    img.put(feature_list, &fl);
+    // lookup list: indices that the layout does not name share the first lookup
+    let lookup_list = feature_list + fl.len();
+    let count = specs.iter().map(|s| s.idx).max().unwrap_or(0) + 1;
+    let mut at = lookup_list + 2 + 2 * count;
+    let mut lookup_pos = BTreeMap::new();
+    for s in &specs {
+        lookup_pos.insert(s.idx, at);
+        at += if s.ext { 16 } else { 8 };
+    }
+    let header_end = at;
+    let first = *lookup_pos.values().next().unwrap();
+    let mut w = W::new();
+    w.u16(count as u16);
+    for i in 0..count {
+        w.u16((*lookup_pos.get(&i).unwrap_or(&first) - lookup_list) as u16);
+    }
+    img.put(lookup_list, &w.done());
+    let mut hdr = W::new();
+    hdr.u16(1).u16(0).u16(script_list as u16).u16(feature_list as u16).u16(lookup_list as u16);
+    img.put(0, &hdr.done());
+    for s in &specs {
+        assert!(s.sub >= header_end, "sub-table of lookup {} at {} lies inside the header (ends {})", s.idx, s.sub, header_end);
+        let lp = lookup_pos[&s.idx];
+        let base_type: u16 = match (gsub, s.typ.as_str()) {
+            (true, "single") => 1,
+            (true, _) => 5,
+            (false, "single") => 1,
+            (false, _) => 2,
+        };
+        let mut w = W::new();
+        if s.ext {
+            w.u16(if gsub { 7 } else { 9 }).u16(0).u16(1).u16(8);
+            w.u16(1).u16(base_type).u32((s.sub - (lp + 8)) as u32);
+        } else {
+            assert!(s.sub - lp < 65536, "lookup {} needs an extension", s.idx);
+            w.u16(base_type).u16(0).u16(1).u16((s.sub - lp) as u16);
+        }
+        img.put(lp, &w.done());
+        let cov = s.objs.iter().find(|o| o.kind == "cov").expect("coverage");
+        let mut w = W::new();
+        if s.typ == "single" {
+            if gsub {
+                w.u16(1).u16((cov.pos - s.sub) as u16).u16(COLLIDE_DELTA);
+            } else {
+                w.u16(1).u16((cov.pos - s.sub) as u16).u16(4).i16(100);
+            }
+        } else {
+            let cls = s.objs.iter().find(|o| o.kind == "cls").expect("classdef");
+            if gsub {
+                w.u16(2).u16((cov.pos - s.sub) as u16).u16((cls.pos - s.sub) as u16).u16(2).u16(0).u16(12);
+                w.u16(1).u16(4); // SubClassSet: one rule
+                w.u16(1).u16(1).u16(0).u16(s.nested[0] as u16); // one glyph; at 0 apply nested[0]
+            } else {
+                w.u16(2).u16((cov.pos - s.sub) as u16).u16(4).u16(0);
+                w.u16((cls.pos - s.sub) as u16).u16((cls.pos - s.sub) as u16).u16(1).u16(2);
+                w.i16(0).i16(100);
+            }
+            img.put(cls.pos, &classdef_bytes(&cls.content));
+        }
+        img.put(s.sub, &w.done());
+        img.put(cov.pos, &coverage_bytes(&cov.content));
+    }
+    img.buf
+}
+
+/// Walk the bytes of a built layout table with plain offset arithmetic and return, per lookup of the
+/// layout, the absolute positions of its Coverage and ClassDef (None when the bytes disagree).
+fn walk_layout(tbl: &str, data: &[u8], specs: &[LSpec]) -> Option<usize> {
+    let gsub = tbl == "GSUB";
+    let ll = be16(data, 8)? as usize;
+    let mut n = 0;
+    for s in specs.iter().filter(|s| s.tbl == tbl) {
+        let lk = ll + be16(data, ll + 2 + 2 * s.idx)? as usize;
+        let ty = be16(data, lk)?;
+        let mut st = lk + be16(data, lk + 6)? as usize;
+        if ty == if gsub { 7 } else { 9 } {
+            st += be32(data, st + 4)? as usize;
+        }
+        if st != s.sub {
+            return None;
+        }
+        for o in &s.objs {
+            let p = if o.kind == "cov" {
+                st + be16(data, st + 2)? as usize
+            } else if gsub {
+                st + be16(data, st + 4)? as usize
+            } else {
+                st + be16(data, st + 10)? as usize
+            };
+            let want = if o.kind == "cov" { coverage_bytes(&o.content) } else { classdef_bytes(&o.content) };
+            if p != o.pos || data.get(p..p + want.len())? != &want[..] {
+                return None;
+            }
+            n += 1;
+        }
+    }
+    Some(n)
+}
+
+fn collide_font(name: &str, desc: &Value) -> FontCfg {
+    let specs = lspecs(&desc["lookups"]);
+    let mut f = TtFont::new((0..72).map(|i| if i == 0 { GlyphSpec::Empty } else { triangle(i as i16) }).collect());
+    f.cmap = ('A'..='Z').map(|c| (c as u32, gid(c))).collect();
+    f.cmap.push((0x25CC, 27));
+    let mut feats: Vec<String> = specs.iter().map(|s| s.feat.clone()).filter(|x| x != "none").collect();
+    feats.sort();
+    feats.dedup();
+    for tbl in ["GSUB", "GPOS"] {
+        if specs.iter().any(|s| s.tbl == tbl) {
+            f.extra_tables.push((tbl.into(), build_layout(tbl, &specs)));
+        }
+    }
+    FontCfg {
+        name: name.into(),
+        data: f.build(),
+        scripts: [tagv("latn"), tagv("grek")],
+        lang: tagv("dflt"),
+        words: vec![COLLIDE_TEXT.into(), "XEXFXGABCI".into(), "AEI".into()],
+        fam: "collide",
+        damage: Damage::default(),
+        desc: desc.clone(),
+        feats,
+    }
+}
+
+/// Facts about a collide font measured on its bytes: objects found where the layout says, pairs of
+/// objects of one cache (same table, same kind, different content) whose keys would coincide under a
+/// narrowed key, and how many different results shaping with each single feature (and none) gives.
+fn collide_selfcheck(cfg: &FontCfg) -> Value {
+    let specs = lspecs(&cfg.desc["lookups"]);
+    let dir = read_sfnt_dir(&cfg.data, 0).expect("sfnt");
+    let mut found = 0usize;
+    let mut expected = 0usize;
+    let mut big = 0usize;
+    for tbl in ["GSUB", "GPOS"] {
+        if let Some(t) = table_bytes(&cfg.data, &dir, tbl) {
+            expected += specs.iter().filter(|s| s.tbl == tbl).map(|s| s.objs.len()).sum::<usize>();
+            found += walk_layout(tbl, t, &specs).unwrap_or(0);
+            if t.len() > 65536 {
+                big += 1;
+            }
+        }
+    }
+    let (mut u16p, mut u8p, mut relp, mut idxp) = (0, 0, 0, 0);
+    for (i, a) in specs.iter().enumerate() {
+        for b in specs.iter().skip(i + 1) {
+            if a.tbl != b.tbl {
+                continue;
+            }
+            if a.idx % 256 == b.idx % 256 {
+                idxp += 1;
+            }
+            for oa in &a.objs {
+                for ob in &b.objs {
+                    if oa.kind == ob.kind && oa.content != ob.content {
+                        if oa.pos % 65536 == ob.pos % 65536 {
+                            u16p += 1;
+                        }
+                        if oa.pos % 256 == ob.pos % 256 {
+                            u8p += 1;
+                        }
+                        if oa.pos - a.sub == ob.pos - b.sub {
+                            relp += 1;
+                        }
+                    }
+                }
+            }
+        }
+    }
+    let mut outs = std::collections::BTreeSet::new();
+    let mut sets: Vec<Vec<String>> = vec![vec![]];
+    sets.extend(cfg.feats.iter().map(|f| vec![f.clone()]));
+    for fs in &sets {
+        let c = Call::Shape {
+            text: COLLIDE_TEXT.into(),
+            script: cfg.scripts[0],
+            lang: None,
+            mask: 0,
+            custom: true,
+            ctags: fs.iter().map(|f| tag_u32(f)).collect(),
+            tuple: None,
+            kern: false,
+        };
+        let (_, fresh) = run_both(cfg, &[], &c);
+        outs.insert(fresh);
+    }
+    json!({"font": cfg.name, "objects_expected": expected, "objects_found_at_position": found, "tables_over_64k": big,
+           "alias_pairs_u16": u16p, "alias_pairs_u8": u8p, "alias_pairs_rel": relp, "alias_pairs_lookup_index_u8": idxp,
+           "feature_sets": sets.len(), "distinct_results": outs.len()})
+}
+
+#[derive(Clone)]
 struct FontCfg {
     name: String,
     data: Vec<u8>,
     scripts: [u32; 2],
     lang: u32,
     words: Vec<String>,
+    /// "intact" | "dmg" | "collide"
+    fam: &'static str,
+    damage: Damage,
+    /// the abstract font descriptor of FontCache.tla
+    desc: Value,
+    /// collide fonts: the features of the layout
+    feats: Vec<String>,
 }
 
 fn tagv(s: &str) -> u32 {
     tag_u32(s)
 }
 
+fn plain_desc() -> Value {
+    json!({"fam": "intact", "damaged": [], "lookups": []})
+}
+
 fn fonts() -> Vec<FontCfg> {
     let root = repo_root();
     let rd = |p: &str| std::fs::read(format!("{}/{}", root, p)).unwrap_or_default();
-    let mut v = vec![FontCfg {
-        name: "synth-fv".into(),
-        data: synth_fv_font(),
+    let synth = |name: &str, data: Vec<u8>| FontCfg {
+        name: name.into(),
+        data,
         scripts: [tagv("latn"), tagv("grek")],
         lang: tagv("dflt"),
         words: vec!["A\u{25CC}".into(), "ABA".into(), "AA".into()],
-    }];
+        fam: "intact",
+        damage: Damage::default(),
+        desc: plain_desc(),
+        feats: vec![],
+    };
+    let mut v = vec![synth("synth-fv", synth_fv_font()), synth("synth-all", synth_all_font(true)), synth("synth-morx", synth_all_font(false))];
     for (name, path, scripts, lang, words) in [
         ("sbix-dupe", "tests/fonts/sbix/sbix-dupe.ttf", ["latn", "DFLT"], "dflt", vec!["A\u{25CC}", "abc"]),
         ("svg-gzipped", "tests/fonts/svg/gzipped.ttf", ["latn", "DFLT"], "dflt", vec!["A\u{25CC}", "abc"]),
@@ -121,10 +633,49 @@ fn fonts() -> Vec<FontCfg> {
                 scripts: [tagv(scripts[0]), tagv(scripts[1])],
                 lang: tagv(lang),
                 words: words.into_iter().map(String::from).collect(),
+                fam: "intact",
+                damage: Damage::default(),
+                desc: plain_desc(),
+                feats: vec![],
             });
         }
     }
     v
+}
+
+/// The fonts whose tables are damaged: synthesized ones that carry every kind, and repository fonts.
+fn damage_bases(all: &[FontCfg]) -> Vec<FontCfg> {
+    all.iter().filter(|c| ["synth-all", "synth-morx", "opensans", "lohit-hi", "sbix-dupe", "svg-gzipped"].contains(&c.name.as_str())).cloned().collect()
+}
+
+/// Layout of the collide fonts as MC_FontCache defines it, with the low sub-tables moved by `shift`
+/// (even, < 128) and the far ones by `far` (a multiple of 65536): the random histories use their own.
+fn collide_desc(tbls: &[&str], shift: usize, far: usize) -> Value {
+    let mut lookups = Vec::new();
+    for tbl in tbls {
+        let gsub = *tbl == "GSUB";
+        let single = |idx: usize, feat: &str, sub: usize, content: &str| {
+            json!({"tbl": tbl, "idx": idx, "feat": feat, "typ": "single", "ext": sub >= 65536, "sub": sub,
+                   "objs": [{"kind": "cov", "pos": sub + 8, "rel": 8, "content": content}], "nested": []})
+        };
+        let class = |idx: usize, feat: &str, sub: usize, content: &str| {
+            json!({"tbl": tbl, "idx": idx, "feat": feat, "typ": "class", "ext": sub >= 65536, "sub": sub,
+                   "objs": [{"kind": "cov", "pos": sub + 32, "rel": 32, "content": if gsub { "EFG" } else { "X" }},
+                            {"kind": "cls", "pos": sub + 64, "rel": 64, "content": content}],
+                   "nested": if gsub { vec![6] } else { vec![] }})
+        };
+        let p = 2560 + shift;
+        let q = 3072 + shift;
+        lookups.push(single(0, "liga", p, "A"));
+        lookups.push(single(1, "dlig", p + far, "B"));
+        lookups.push(single(2, "hlig", p + 256, "C"));
+        lookups.push(class(3, "calt", q, "E"));
+        lookups.push(class(4, "rlig", q + far, "F"));
+        lookups.push(class(5, "clig", q + 256, "G"));
+        lookups.push(single(6, "none", 3712 + shift, "EFG"));
+        lookups.push(single(256, "smcp", 3856 + shift, "I"));
+    }
+    json!({"fam": "collide", "damaged": [], "lookups": lookups})
 }
 
 // ---- concrete calls ---------------------------------------------------------------------------
@@ -133,7 +684,10 @@ fn fonts() -> Vec<FontCfg> {
 enum Call {
     LookupGlyph { ch: char, required: bool, vs: Option<u8> },
     MapGlyphs { text: String, script: u32, required: bool },
-    Shape { text: String, script: u32, lang: Option<u32>, mask: u64, custom: bool, tuple: Option<Vec<f32>>, kern: bool },
+    /// `custom`: Features::Custom(ctags), otherwise Features::Mask(mask)
+    Shape { text: String, script: u32, lang: Option<u32>, mask: u64, custom: bool, ctags: Vec<u32>, tuple: Option<Vec<f32>>, kern: bool },
+    /// the public accessor of a lazily loaded table
+    Table { kind: String },
     Image { g: u16, ppem: u16 },
     HasImages,
     SetFilter { bits: u8, name: String },
@@ -164,10 +718,10 @@ fn exec<T: FontTableProvider>(font: &mut Font<T>, c: &Call) -> String {
     match c {
         Call::LookupGlyph { ch, required, vs } => format!("{:?}", font.lookup_glyph_index(*ch, pres(*required), vs_of(*vs))),
         Call::MapGlyphs { text, script, required } => format!("{:?}", font.map_glyphs(text, *script, pres(*required))),
-        Call::Shape { text, script, lang, mask, custom, tuple, kern } => {
+        Call::Shape { text, script, lang, mask, custom, ctags, tuple, kern } => {
             let glyphs = font.map_glyphs(text, *script, MatchingPresentation::NotRequired);
             let feats = if *custom {
-                Features::Custom(vec![allsorts::gsub::FeatureInfo { feature_tag: allsorts::tag::LIGA, alternate: None }])
+                Features::Custom(ctags.iter().map(|t| allsorts::gsub::FeatureInfo { feature_tag: *t, alternate: None }).collect())
             } else {
                 Features::Mask(FeatureMask::from_bits_truncate(*mask))
             };
@@ -191,31 +745,50 @@ fn exec<T: FontTableProvider>(font: &mut Font<T>, c: &Call) -> String {
         Call::HAdvance { g } => format!("{:?}", font.horizontal_advance(*g)),
         Call::VAdvance { g } => format!("{:?}", font.vertical_advance(*g)),
         Call::GlyphNames { g } => format!("{:?}", font.glyph_names(g)),
+        Call::Table { kind } => {
+            let r: Result<bool, ParseError> = match kind.as_str() {
+                "gsub" => font.gsub_cache().map(|t| t.is_some()),
+                "gpos" => font.gpos_cache().map(|t| t.is_some()),
+                "gdef" => font.gdef_table().map(|t| t.is_some()),
+                "morx" => font.morx_table().map(|t| t.is_some()),
+                "kern" => font.kern_table().map(|t| t.is_some()),
+                _ => font.vhea_table().map(|t| t.is_some()),
+            };
+            format!("{:?}", r)
+        }
     }
 }
 
-fn with_font<R>(data: &[u8], f: impl FnOnce(&mut Font<allsorts::font_data::DynamicFontTableProvider<'_>>) -> R) -> Option<R> {
+fn with_font<R>(data: &[u8], dmg: &Damage, f: impl FnOnce(&mut Font<Wrap<'_>>) -> R) -> Option<R> {
     let fd = ReadScope::new(data).read::<FontData<'_>>().ok()?;
     let prov = fd.table_provider(0).ok()?;
-    let mut font = Font::new(prov).ok()?;
+    let mut font = Font::new(Wrap { inner: prov, dmg }).ok()?;
     Some(f(&mut font))
 }
 
 /// Run `history` then `probe` on one Font; and `probe` on a fresh Font carrying the history's last
 /// image-filter setting. Returns (result after history, result on fresh), panics rendered as text.
-fn run_both(data: &[u8], history: &[Call], probe: &Call) -> (String, String) {
-    let after = match guarded(|| with_font(data, |font| {
+/// A panic inside a call of the history ends the life of that Font object: the probe is then not
+/// applicable and the first component is "HISTORY-PANIC ..." (the panic is C01's to report).
+fn run_both(cfg: &FontCfg, history: &[Call], probe: &Call) -> (String, String) {
+    let data = &cfg.data[..];
+    let after = match guarded(|| with_font(data, &cfg.damage, |font| {
         for c in history {
-            let _ = exec(font, c);
+            if let Outcome::Panicked(m) = guarded(|| exec(font, c)) {
+                return format!("HISTORY-PANIC {}", vh::sup::panic_key(&m));
+            }
         }
-        exec(font, probe)
+        match guarded(|| exec(font, probe)) {
+            Outcome::Returned(s) => s,
+            Outcome::Panicked(m) => format!("PANIC {}", vh::sup::panic_key(&m)),
+        }
     })) {
         Outcome::Returned(Some(s)) => s,
         Outcome::Returned(None) => "LOADFAIL".into(),
         Outcome::Panicked(m) => format!("PANIC {}", vh::sup::panic_key(&m)),
     };
     let last_filter = history.iter().rev().find(|c| matches!(c, Call::SetFilter { .. }));
-    let fresh = match guarded(|| with_font(data, |font| {
+    let fresh = match guarded(|| with_font(data, &cfg.damage, |font| {
         if let Some(f) = last_filter {
             let _ = exec(font, f);
         }
@@ -257,21 +830,28 @@ fn concretise(c: &Value, cfg: &FontCfg) -> Call {
             }
             Call::MapGlyphs { text, script: cfg.scripts[0], required: s("pres") == "Req" }
         }
-        "Shape" => Call::Shape {
+        "Shape" => {
+            let feats: Vec<u32> = c["feats"].as_array().map(|a| a.iter().map(|f| tag_u32(f.as_str().unwrap())).collect()).unwrap_or_default();
+            let collide = cfg.fam == "collide";
+            Call::Shape {
             text: cfg.words[0].clone(),
             script: if s("script") == "s1" { cfg.scripts[0] } else { cfg.scripts[1] },
             lang: Some(cfg.lang),
             // m1 and m2 must stay different after gsub_apply_default intersects them with the
-            // features the font supports (the cache key uses the intersected mask)
-            mask: if s("mask") == "m1" { FeatureMask::default().bits() } else { (FeatureMask::CCMP | FeatureMask::RLIG).bits() },
-            custom: false,
+            // features the font supports (the cache key uses the intersected mask); on a collide font
+            // the mask is the set of features the call names
+            mask: if collide { feats.iter().fold(0u64, |m, t| m | FeatureMask::from_tag(*t).bits()) }
+                  else if s("mask") == "m1" { FeatureMask::default().bits() } else { (FeatureMask::CCMP | FeatureMask::RLIG).bits() },
+            custom: c["custom"].as_bool().unwrap_or(false),
+            ctags: if collide { feats.clone() } else { vec![allsorts::tag::LIGA] },
             tuple: match s("tuple") {
                 "tA" => Some(vec![0.0]),
                 "tB" => Some(vec![1.0]),
                 _ => None,
             },
             kern: c["kern"].as_bool().unwrap_or(true),
-        },
+        }},
+        "Table" => Call::Table { kind: s("k").to_string() },
         "Image" => Call::Image { g: c["g"].as_u64().unwrap_or(1) as u16, ppem: 100 },
         "HasImages" => Call::HasImages,
         "SetFilter" => match s("f") {
@@ -285,31 +865,100 @@ fn concretise(c: &Value, cfg: &FontCfg) -> Call {
     }
 }
 
+/// The concrete fonts an abstract font descriptor stands for.
+struct Universe {
+    intact: Vec<Rc<FontCfg>>,
+    bases: Vec<FontCfg>,
+    dmg: BTreeMap<String, Vec<Rc<FontCfg>>>,
+    collide: BTreeMap<String, Vec<Rc<FontCfg>>>,
+    dropped: usize,
+    selfchecks: Vec<Value>,
+}
+
+impl Universe {
+    fn new() -> Universe {
+        let intact = fonts();
+        let bases = damage_bases(&intact);
+        let intact = intact.into_iter().map(Rc::new).collect();
+        Universe { intact, bases, dmg: BTreeMap::new(), collide: BTreeMap::new(), dropped: 0, selfchecks: vec![] }
+    }
+
+    fn of(&mut self, desc: &Value, modes: &[Mode]) -> Vec<Rc<FontCfg>> {
+        match desc["fam"].as_str().unwrap_or("intact") {
+            "dmg" => {
+                let kinds: Vec<String> = desc["damaged"].as_array().unwrap().iter().map(|k| k.as_str().unwrap().to_string()).collect();
+                let key = kinds.join("+");
+                if !self.dmg.contains_key(&key) {
+                    let v = damaged_variants(&self.bases, &kinds, modes, &mut self.dropped);
+                    self.dmg.insert(key.clone(), v.into_iter().map(Rc::new).collect());
+                }
+                self.dmg[&key].clone()
+            }
+            "collide" => {
+                let key = desc["lookups"].to_string();
+                if !self.collide.contains_key(&key) {
+                    let tbls: std::collections::BTreeSet<String> = lspecs(&desc["lookups"]).iter().map(|s| s.tbl.clone()).collect();
+                    let name = format!("collide-{}-{}", tbls.into_iter().collect::<Vec<_>>().join("+").to_lowercase(), self.collide.len());
+                    let cfg = collide_font(&name, desc);
+                    self.selfchecks.push(collide_selfcheck(&cfg));
+                    self.collide.insert(key.clone(), vec![Rc::new(cfg)]);
+                }
+                self.collide[&key].clone()
+            }
+            _ => self.intact.clone(),
+        }
+    }
+}
+
+fn is_error_result(s: &str) -> bool {
+    s.starts_with("Err") || s.starts_with("PANIC")
+}
+
 fn replay(cases: &str, out: &str) {
     let cases = read_ndjson(cases);
-    let fonts = fonts();
+    let mut uni = Universe::new();
     let mut w = NdWriter::create(out);
     let mut i = 0u64;
     let mut n_probes = 0usize;
     let mut n_differs = 0usize;
-    for cfg in &fonts {
-        for (ci, case) in cases.iter().enumerate() {
+    // per family: histories executed (case x concrete font), probes, probes differing from fresh
+    let mut fam_hist: BTreeMap<String, usize> = BTreeMap::new();
+    let mut fam_probes: BTreeMap<String, usize> = BTreeMap::new();
+    let mut fam_differs: BTreeMap<String, usize> = BTreeMap::new();
+    let mut dmg_error_probes = 0usize; // probes on damaged fonts whose fresh answer reports the damage
+    let mut n_cut = 0usize; // probes not applicable because a call of the history panicked
+    let mut concrete = std::collections::BTreeSet::new();
+    for (ci, case) in cases.iter().enumerate() {
+        let desc = &case["font"];
+        let fam = desc["fam"].as_str().unwrap_or("intact").to_string();
+        for cfg in &uni.of(desc, &[Mode::Trunc(3), Mode::Fail]) {
+            concrete.insert(cfg.name.clone());
             let case_id = format!("{}/g{}", cfg.name, ci);
             let path: Vec<Value> = case["path"].as_array().unwrap().clone();
             let history: Vec<Call> = path.iter().map(|c| concretise(c, cfg)).collect();
+            *fam_hist.entry(fam.clone()).or_default() += 1;
             i += 1;
-            w.write(&json!({"i": i, "case": case_id, "ev": "Init", "a": {"font": cfg.name}, "o": {}}));
+            w.write(&json!({"i": i, "case": case_id, "ev": "Init", "a": {"font": cfg.desc, "name": cfg.name}, "o": {}}));
             for c in &path {
                 i += 1;
                 w.write(&json!({"i": i, "case": case_id, "ev": "Call", "a": {"call": c, "probe": false}, "o": {"differs": false}}));
             }
             for f in case["fan"].as_array().unwrap() {
                 let probe = concretise(&f["call"], cfg);
-                let (after, fresh) = run_both(&cfg.data, &history, &probe);
+                let (after, fresh) = run_both(cfg, &history, &probe);
+                if after.starts_with("HISTORY-PANIC") {
+                    n_cut += 1;
+                    continue;
+                }
                 n_probes += 1;
+                *fam_probes.entry(fam.clone()).or_default() += 1;
+                if fam == "dmg" && is_error_result(&fresh) {
+                    dmg_error_probes += 1;
+                }
                 let differs = after != fresh;
                 if differs {
                     n_differs += 1;
+                    *fam_differs.entry(fam.clone()).or_default() += 1;
                 }
                 i += 1;
                 let mut o = json!({"differs": differs});
@@ -324,7 +973,11 @@ fn replay(cases: &str, out: &str) {
     }
     let n = w.n;
     w.finish();
-    println!("{}", json!({"cases": cases.len(), "fonts": fonts.len(), "probes": n_probes, "differs": n_differs, "events": n}));
+    println!("{}", json!({"cases": cases.len(), "fonts": concrete.len(), "histories": fam_hist.values().sum::<usize>(),
+        "probes": n_probes, "differs": n_differs, "events": n, "probes_cut_by_a_panic_in_the_history": n_cut,
+        "histories_by_family": fam_hist, "probes_by_family": fam_probes, "differs_by_family": fam_differs,
+        "damaged_variants": uni.dmg.values().map(|v| v.len()).sum::<usize>(), "damaged_variants_dropped": uni.dropped,
+        "damaged_probes_reporting_the_error": dmg_error_probes, "collide_selfcheck": uni.selfchecks}));
 }
 
 // ---- random long histories --------------------------------------------------------------------
@@ -365,14 +1018,21 @@ fn abstract_of(c: &Call, cfg: &FontCfg) -> Value {
             }
             json!({"op": "MapGlyphs", "text": seq, "script": format!("{:08x}", script), "pres": if *required { "Req" } else { "NotReq" }})
         }
-        Call::Shape { text, script, lang, mask, custom, tuple, kern } => {
+        Call::Shape { text, script, lang, mask, custom, ctags, tuple, kern } => {
             // the lookups cache is keyed by the mask AFTER intersection with the features the
             // font supports for (script, lang): that intersection is the identity the model needs
             let eff = effective_mask(cfg, *script, *lang, *mask);
+            // the features of the layout (collide fonts) that this call enables
+            let feats: Vec<&String> = cfg.feats.iter().filter(|f| {
+                let t = tag_u32(f);
+                if *custom { ctags.contains(&t) } else { FeatureMask::from_tag(t).bits() & *mask != 0 }
+            }).collect();
             json!({"op": "Shape", "text": text, "script": format!("{:08x}", script), "lang": format!("{:?}", lang),
-                   "mask": if *custom { "custom".to_string() } else { format!("{:x}", eff) },
-                   "tuple": match tuple { None => "none".to_string(), Some(t) => format!("{:?}", t) }, "kern": kern})
+                   "mask": if *custom { format!("custom{:?}", ctags) } else { format!("{:x}", eff) },
+                   "tuple": match tuple { None => "none".to_string(), Some(t) => format!("{:?}", t) }, "kern": kern,
+                   "custom": custom, "feats": feats})
         }
+        Call::Table { kind } => json!({"op": "Table", "k": kind}),
         Call::Image { g, .. } => json!({"op": "Image", "g": g}),
         Call::HasImages => json!({"op": "HasImages"}),
         Call::SetFilter { name, .. } => json!({"op": "SetFilter", "f": name}),
@@ -386,7 +1046,7 @@ fn abstract_of(c: &Call, cfg: &FontCfg) -> Value {
 /// public `features_supported`.
 fn effective_mask(cfg: &FontCfg, script: u32, lang: Option<u32>, mask: u64) -> u64 {
     let r = guarded(|| {
-        with_font(&cfg.data, |font| {
+        with_font(&cfg.data, &cfg.damage, |font| {
             let cache = match font.gsub_cache() {
                 Ok(Some(c)) => c,
                 _ => return mask,
@@ -413,7 +1073,13 @@ fn effective_mask(cfg: &FontCfg, script: u32, lang: Option<u32>, mask: u64) -> u
 fn random_call(rng: &mut StdRng, cfg: &FontCfg) -> Call {
     let chars = ['A', 'B', 'a', '\u{25CC}', '\u{25CC}', '\u{1F600}', '\u{2764}', '\u{0915}', '\u{0644}'];
     let vss = [None, None, Some(15u8), Some(16u8), Some(1u8)];
-    match rng.gen_range(0..20) {
+    // on a font with a damaged table ask for the tables more often; on a collide font shape more often
+    let roll = match cfg.fam {
+        "dmg" => [0, 4, 7, 8, 9, 14, 15, 16, 18, 20, 20, 20, 20, 21][rng.gen_range(0..14)],
+        "collide" => [0, 4, 7, 7, 7, 7, 7, 7, 7, 17, 20, 21][rng.gen_range(0..12)],
+        _ => rng.gen_range(0..22),
+    };
+    match roll {
         0..=3 => Call::LookupGlyph { ch: *chars.choose(rng).unwrap(), required: rng.gen_bool(0.5), vs: *vss.choose(rng).unwrap() },
         4..=6 => {
             let mut t = cfg.words.choose(rng).unwrap().clone();
@@ -425,12 +1091,33 @@ fn random_call(rng: &mut StdRng, cfg: &FontCfg) -> Call {
             }
             Call::MapGlyphs { text: t, script: cfg.scripts[rng.gen_range(0..2)], required: rng.gen_bool(0.4) }
         }
+        7..=13 if cfg.fam == "collide" => {
+            // a random subset of the layout's features, mostly small, as a mask or as a custom list
+            let mut fs: Vec<u32> = Vec::new();
+            let k = [1, 1, 1, 2, 2, 3, 7][rng.gen_range(0..7)];
+            for _ in 0..k {
+                fs.push(tag_u32(cfg.feats.choose(rng).unwrap()));
+            }
+            fs.sort();
+            fs.dedup();
+            Call::Shape {
+                text: cfg.words.choose(rng).unwrap().clone(),
+                script: cfg.scripts[rng.gen_range(0..2)],
+                lang: if rng.gen_bool(0.5) { Some(cfg.lang) } else { None },
+                mask: fs.iter().fold(0u64, |m, t| m | FeatureMask::from_tag(*t).bits()),
+                custom: rng.gen_bool(0.5),
+                ctags: fs,
+                tuple: None,
+                kern: rng.gen_bool(0.5),
+            }
+        }
         7..=13 => Call::Shape {
             text: cfg.words.choose(rng).unwrap().clone(),
             script: cfg.scripts[rng.gen_range(0..2)],
             lang: if rng.gen_bool(0.7) { Some(cfg.lang) } else { None },
             mask: [FeatureMask::default().bits(), (FeatureMask::LIGA | FeatureMask::CCMP).bits(), FeatureMask::all().bits(), 0][rng.gen_range(0..4)],
             custom: rng.gen_bool(0.15),
+            ctags: vec![allsorts::tag::LIGA],
             tuple: match rng.gen_range(0..4) {
                 0 => None,
                 1 => Some(vec![0.0]),
@@ -448,28 +1135,58 @@ fn random_call(rng: &mut StdRng, cfg: &FontCfg) -> Call {
         },
         17 => Call::HAdvance { g: rng.gen_range(0..8) },
         18 => Call::VAdvance { g: rng.gen_range(0..8) },
-        _ => Call::GlyphNames { g: vec![rng.gen_range(0..8), 0] },
+        19 => Call::GlyphNames { g: vec![rng.gen_range(0..8), 0] },
+        _ => Call::Table { kind: KINDS[rng.gen_range(0..6)].to_string() },
     }
 }
 
+/// Random histories, one third on intact fonts, one third on fonts with damaged tables (one or two
+/// kinds; truncated to 3 bytes, cut in the middle, or not delivered), one third on collide fonts whose
+/// layout is shifted by a seed-dependent amount and whose far sub-tables lie 1..3 x 65536 further.
 fn record(seed: u64, histories: usize, len: usize, out: &str) {
     let mut rng = StdRng::seed_from_u64(seed);
-    let fonts = fonts();
+    let mut uni = Universe::new();
+    let intact = uni.intact.clone();
+    let modes = [Mode::Trunc(3), Mode::Half, Mode::Fail];
+    let mut dmg: Vec<Rc<FontCfg>> = Vec::new();
+    for k in KINDS {
+        dmg.extend(uni.of(&json!({"fam": "dmg", "damaged": [k], "lookups": []}), &modes));
+    }
+    for ks in [["gsub", "gpos"], ["gdef", "kern"], ["vhea", "vmtx"], ["gsub", "morx"]] {
+        dmg.extend(uni.of(&json!({"fam": "dmg", "damaged": ks, "lookups": []}), &modes));
+    }
+    dmg.shuffle(&mut rng);
+    let mut collide: Vec<Rc<FontCfg>> = Vec::new();
+    for tbls in [vec!["GSUB"], vec!["GPOS"], vec!["GSUB", "GPOS"]] {
+        let shift = 2 * rng.gen_range(0..60usize);
+        let far = 65536 * rng.gen_range(1..4usize);
+        collide.extend(uni.of(&collide_desc(&tbls, shift, far), &modes));
+    }
     let mut w = NdWriter::create(out);
     let mut i = 0u64;
     let mut n_differs = 0usize;
+    let mut fam_hist: BTreeMap<String, usize> = BTreeMap::new();
+    let mut fam_differs: BTreeMap<String, usize> = BTreeMap::new();
+    let mut dmg_error_calls = 0usize;
+    let mut n_panics = 0usize;
     for h in 0..histories {
-        let cfg = &fonts[h % fonts.len()];
+        let pool = [&intact, &dmg, &collide][h % 3];
+        let cfg = &pool[(h / 3) % pool.len()];
         let case_id = format!("{}/r{}-{}", cfg.name, seed, h);
+        *fam_hist.entry(cfg.fam.to_string()).or_default() += 1;
         i += 1;
-        w.write(&json!({"i": i, "case": case_id, "ev": "Init", "a": {"font": cfg.name}, "o": {}}));
+        w.write(&json!({"i": i, "case": case_id, "ev": "Init", "a": {"font": cfg.desc, "name": cfg.name}, "o": {}}));
         let mut history: Vec<Call> = Vec::new();
         for _ in 0..len {
             let c = random_call(&mut rng, cfg);
-            let (after, fresh) = run_both(&cfg.data, &history, &c);
+            let (after, fresh) = run_both(cfg, &history, &c);
             let differs = after != fresh;
             if differs {
                 n_differs += 1;
+                *fam_differs.entry(cfg.fam.to_string()).or_default() += 1;
+            }
+            if cfg.fam == "dmg" && is_error_result(&fresh) {
+                dmg_error_calls += 1;
             }
             let mut o = json!({"differs": differs});
             if differs {
@@ -477,13 +1194,23 @@ fn record(seed: u64, histories: usize, len: usize, out: &str) {
                 o["fresh"] = json!(fresh.chars().take(300).collect::<String>());
             }
             i += 1;
-            w.write(&json!({"i": i, "case": case_id, "ev": "Call", "a": {"call": abstract_of(&c, cfg), "probe": false, "font": cfg.name}, "o": o}));
-            history.push(c);
+            // a call that panicked ends the life of a Font object: it is judged (as a probe) but does not become
+            // part of the history the later calls are compared after
+            let panicked = after.starts_with("PANIC");
+            if panicked {
+                n_panics += 1;
+            }
+            w.write(&json!({"i": i, "case": case_id, "ev": "Call", "a": {"call": abstract_of(&c, cfg), "probe": panicked, "font": cfg.name}, "o": o}));
+            if !panicked {
+                history.push(c);
+            }
         }
     }
     let n = w.n;
     w.finish();
-    println!("{}", json!({"histories": histories, "events": n, "differs": n_differs}));
+    println!("{}", json!({"histories": histories, "events": n, "differs": n_differs, "histories_by_family": fam_hist,
+        "differs_by_family": fam_differs, "damaged_fonts": dmg.len(), "damaged_variants_dropped": uni.dropped,
+        "damaged_calls_reporting_the_error": dmg_error_calls, "calls_that_panicked": n_panics, "collide_selfcheck": uni.selfchecks}));
 }
 
 // ---- pure operations repeated -----------------------------------------------------------------
